@@ -198,6 +198,56 @@ fn source_labels(modules_path: &str) -> (Option<String>, Option<String>) {
         .clone()
 }
 
+/// What the binary writes to standard error for ANY failing run, whatever the failure: the
+/// longest common line-suffix of the stderr of three one-line scripts that fail at different
+/// stages (syntax error, unknown identifier, division by zero). A failing run whose stderr is
+/// nothing but this tail has not reported a diagnostic for its failure. Learnt once per process
+/// from the binary under test, so it does not depend on the wording or style of diagnostics.
+fn generic_failure_tail(modules_path: &str) -> Vec<String> {
+    static TAIL: std::sync::OnceLock<Vec<String>> = std::sync::OnceLock::new();
+    TAIL.get_or_init(|| {
+        let errs: Vec<Vec<String>> = ["1 +", "undefined_identifier_zz", "1 / 0"]
+            .iter()
+            .map(|code| {
+                let o = run_cli(
+                    &["--no-config".into(), "--no-init".into(), "-e".into(), code.to_string()],
+                    &BTreeMap::new(),
+                    &[],
+                    modules_path,
+                );
+                o.stderr.lines().map(|l| l.trim_end().to_string()).collect()
+            })
+            .collect();
+        let mut tail: Vec<String> = vec![];
+        let mut k = 1;
+        loop {
+            let mut line: Option<&String> = None;
+            let mut all = true;
+            for e in &errs {
+                if e.len() < k {
+                    all = false;
+                    break;
+                }
+                let l = &e[e.len() - k];
+                match line {
+                    None => line = Some(l),
+                    Some(x) if x == l => {}
+                    _ => {
+                        all = false;
+                    }
+                }
+            }
+            if !all {
+                break;
+            }
+            tail.insert(0, line.unwrap().clone());
+            k += 1;
+        }
+        tail
+    })
+    .clone()
+}
+
 fn normalise_stderr(s: &str) -> String {
     // source labels may differ between delivery channels
     s.lines()
@@ -445,6 +495,24 @@ pub fn exec_trace(trace: &Value, res: &mut ExecResult) -> u64 {
         if out.stderr.trim().is_empty() {
             res.fail("stderr-on-failure", format!("a failing run wrote nothing to standard error: {}", describe()));
             return obs.0;
+        }
+        // a diagnostic for THIS failure must be there: stderr must be more than the text every
+        // failing run ends with
+        if faulty && env_fault.is_empty() {
+            let tail = generic_failure_tail(&modules_path);
+            let got: Vec<String> = out.stderr.lines().map(|l| l.trim_end().to_string()).filter(|l| !l.is_empty()).collect();
+            let tail_ne: Vec<String> = tail.iter().filter(|l| !l.is_empty()).cloned().collect();
+            res.bump("checks.diagnostic_present");
+            if got.len() <= tail_ne.len() && tail_ne.ends_with(&got) {
+                res.fail(
+                    "diagnostic-missing",
+                    format!(
+                        "the run failed (line {} of the {} input, stage {}) but standard error holds only what every failing run prints ({:?}), no diagnostic for this failure: {}",
+                        fault["index"], fault["where"], fault["stage"], tail_ne, describe()
+                    ),
+                );
+                return obs.0;
+            }
         }
         // diagnostics quote the offending source line; none of that belongs on stdout
         let mut leaked = out.stdout.contains("┌─");
